@@ -261,7 +261,9 @@ class Workflow:
             outputs=template.outputs,
             protect=template.protect,
             options=chain(self.defaults, template.options, options),
-            working_dir=template.working_dir or self.working_dir,
+            working_dir=os.path.normpath(
+                os.path.join(self.working_dir, template.working_dir or "")
+            ),
             spec=template.spec,
         )
         self._add_target(new_target)
